@@ -49,7 +49,8 @@ def run(rep, tier, seed, tr_errors):
     rep.trusted += ["Coq 8.16.1 kernel", "model coq/An/Winner.v of the selection after pool.imap / pool.imap_unordered + sorted(key=chi-squared)",
                     "purity of the worker functions, bit-stability of BLAS/LAPACK across processes and the OS scheduler are assumptions exercised here, not proved",
                     "delays are injected by replacing the module-level worker functions before the pool forks (tools/harness/C17.py)"]
-    thm_ok, names, out = lib.check_props_file(rep, PROPS_FILE, expect=["C17_sort_schedule_free", "C17_winner_schedule_free", "C17_winner_is_min", "C17_ordered_map_schedule_free"])
+    thm_ok, names, out = lib.check_props_file(rep, PROPS_FILE, expect=["C17_sort_schedule_free", "C17_winner_schedule_free", "C17_winner_is_min", "C17_ordered_map_schedule_free", "C17_pool_sites_are_ordered"])
+    rep.oblige("translator:tr_pool", "tr_pool" not in tr_errors, tr_errors.get("tr_pool", "gen/PoolSites_gen.v regenerated (how each fan-out of the C17 entry points collects its results)")[-400:])
     f = np.logspace(4, -1, 26)
     circuit = parse_cdc("R{R=100}(R{R=200}C{C=1e-4})(R{R=300}Q{Y=1e-3,n=0.8})")
     rs = np.random.RandomState(seed % (2 ** 31))
